@@ -1,6 +1,7 @@
 import RpmVerif.Driver.Bld
+import RpmVerif.Model.Cpio
 /-! Driver for C11. Op `repro <cfg> [sign=..] [children=n]`. Observation
-`ok paysha=… archsha=… runs=<n> distinct=<k> hdr=<fnv> bt=<build time> mt=<max file mtime> st=<signature time|->`. -/
+`ok paysha=… archsha=… runs=<n> distinct=<k> hdr=<fnv> bt=<build time> mt=<max file mtime> st=<signature time|-> cmt=<max c_mtime of the cpio entries|->`. -/
 namespace RpmVerif.Driver.C11
 open RpmVerif.Hdr RpmVerif.Bld RpmVerif.Driver RpmVerif.Driver.Bld
 
@@ -13,7 +14,7 @@ def handle (_op : String) (args : List String) (impl : String) : String :=
   match parseReq args with
   | none => badReq "cfg"
   | some r =>
-    if !impl.startsWith "ok " then answer "err" (if impl == "err" then "dontcare" else "fails:" ++ impl) "build-rejected" else
+    if !impl.startsWith "ok " then answer "ok" (if impl == "err" then "dontcare" else "fails:" ++ impl) "build-rejected" else
     let itoks := (impl.splitOn " ").filter (· ≠ "")
     let paysha := tok itoks "paysha"; let archsha := tok itoks "archsha"
     let hdr := mainHeader r.cfg r.now paysha.toUTF8.toList archsha.toUTF8.toList
@@ -21,7 +22,9 @@ def handle (_op : String) (args : List String) (impl : String) : String :=
     let mt := (r.cfg.files.map fun f => clampMtime r.cfg.sourceDate f.mtime).foldl max 0
     let signed := args.any (·.startsWith "sign=")
     let st := if signed then toString bt else "-"
-    let m := s!"ok paysha={paysha} archsha={archsha} runs={tok itoks "runs"} distinct=1 hdr={hex16 (fnv (writeHeader hdr))} bt={bt} mt={mt} st={st}"
+    -- what the per-file `payload::Builder` of the model puts into c_mtime (Model/Cpio.lean `builderMeta`)
+    let cmt := (r.cfg.files.map fun f => (RpmVerif.Cpio.builderMeta 0 0 1 ⟨f.cpioPath, f.mode, []⟩).mtime).foldl max 0
+    let m := s!"ok paysha={paysha} archsha={archsha} runs={tok itoks "runs"} distinct=1 hdr={hex16 (fnv (writeHeader hdr))} bt={bt} mt={mt} st={st} cmt={cmt}"
     let sd := r.cfg.sourceDate.getD 0
     let le (s : String) : Bool := match s.toNat? with | some n => n ≤ sd | none => s == "-"
     let v :=
@@ -29,6 +32,8 @@ def handle (_op : String) (args : List String) (impl : String) : String :=
       else if !le (tok itoks "bt") then "fails:buildtime-after-source-date"
       else if !le (tok itoks "mt") then "fails:mtime-after-source-date"
       else if !le (tok itoks "st") then "fails:sigtime-after-source-date"
+      -- the archive's own time stamps (the builder writes none: `payload::Builder` leaves c_mtime at 0)
+      else if !le (tok itoks "cmt") then "fails:cpio-mtime-after-source-date"
       else "holds"
     let owners := ((r.cfg.files.map (·.user)) ++ (r.cfg.files.map (·.group))).eraseDups.length
     answer m v s!"owners{min owners 4}-{if signed then "signed" else "unsigned"}"
